@@ -38,7 +38,7 @@ func (m MTData2) PacketAt(i int) (MTData2Packet, error) {
 type MTData2Packet []byte
 
 func NewMTData2Package(length uint8, identifier DataIdentifier) MTData2Packet {
-	d := make(MTData2Packet, packetDataStart+length)
+	d := make(MTData2Packet, packetDataStart+int(length))
 	d.SetLength(length)
 	d.SetIdentifier(identifier)
 	return d
